@@ -1,6 +1,6 @@
 NOT_YET = {}
 chk("C04", "proof",
-    "All five parsers are instances of one precedence-climbing schema; the check extracts the schema's parameter tables (category order, token->category, rhs level and node shape per operator, prefix/postfix/bracket arms, climb loop with strict <) from the typed THIR of the current tree and proves they equal the reference tables. Grouping of every expression follows from the tables by the textbook argument.",
+    "All five parsers are instances of one precedence-climbing schema; the check extracts the schema's parameter tables (category order, token->category, rhs level and node shape per operator, prefix/postfix/bracket arms, climb loop with strict <) from the typed THIR of the current tree and proves they equal the reference tables. Grouping of every expression follows from the tables by the textbook argument. Premises re-established here: eval is a structural recursion over that tree (no arm looks inside a child; children are used only as eval(child)), the parser sees exactly the tokenizer's token stream, the public function is the plain strip->parse->eval chain.",
     "trusted: rustc's derived PartialOrd; the precedence-climbing schema argument; the value of the tree is the business of C05-C11/C20",
     "custom rustc_private THIR extraction + table comparison against a reference precedence table", "DESIGN.md 5/C04")
 chk("C16", "proof",
@@ -12,7 +12,7 @@ chk("C03", "proof",
     "trusted: recursive-descent schema argument; the converse (well-formed => Ok) is shown per production only",
     "THIR table extraction + abstract interpretation of the extracted lexer model + structural error-discipline rule", "DESIGN.md 5/C03")
 chk("C12", "proof",
-    "Implicit multiplication is a purely syntactic property of three tables: trigger set of implicit_multiply (checked in both directions), level at which the right factor is parsed, node shape, and the exact set of hook call sites/callers. All are extracted from THIR and compared with the reference.",
+    "Implicit multiplication is a purely syntactic property of three tables: trigger set of implicit_multiply (checked in both directions), level at which the right factor is parsed, node shape, and the exact set of hook call sites/callers. All are extracted from THIR and compared with the reference. Premise: token-stream identity (get_next_token is exactly current := tokenizer.next()).",
     "trusted: precedence-climbing schema (C04); literal-followed-by-literal is left unconstrained (statement neither grants nor forbids it)",
     "THIR table extraction, call-site census and call-graph caller rule", "DESIGN.md 5/C12")
 chk("C13", "proof",
@@ -20,11 +20,11 @@ chk("C13", "proof",
     "trusted: std split_whitespace/collect semantics (exactly the White_Space code points)",
     "THIR dataflow rule + relational comparison of extracted parser/lexer table entries", "DESIGN.md 5/C13")
 chk("C14", "proof",
-    "Three-hop identity flow of the placeholder (entry point -> Parser::new -> field -> leaf built by the `@` arm) through identity steps only, the leaf arm of eval is the identity, the field is never written after construction, `@` is a primary with the loosest category. Bit-identity for NaN/-0/inf, variant and scale follow from identity flow.",
+    "Three-hop identity flow of the placeholder (entry point -> Parser::new -> field -> leaf built by the `@` arm) through identity steps only, the leaf arm of eval is the identity, the field is never written after construction, `@` is a primary with the loosest category. Bit-identity for NaN/-0/inf, variant and scale follow from identity flow. The stored placeholder is read exactly once (by the `@` arm) and only the tokenizer produces the `@` token.",
     "trusted: moves/copies/Clone and Option::unwrap_or* on Some(v) are identities",
     "provenance (identity-flow) rule over THIR + field-write census", "DESIGN.md 5/C14")
 chk("C20", "proof",
-    "Compositionality by structural induction; premises decided: every use of a child in every eval arm is the argument of the recursive eval call (lists: only measured/iterated, elements passed to eval), no arm pattern looks inside a child, eval builds no tree, round brackets are the identity wrapper, previous_token is never read, token dispatch is unguarded. Determinism is C16.",
+    "Compositionality by structural induction; premises decided: every use of a child in every eval arm is the argument of the recursive eval call (lists: only measured/iterated, elements passed to eval), no arm pattern looks inside a child, eval builds no tree, round brackets are the identity wrapper, previous_token is never read, token dispatch is unguarded. Determinism is C16. The parser is parametric in the sub-trees it combines (no parser function matches on or compares a Node).",
     "trusted: the induction argument in DESIGN.md; determinism from C16",
     "provenance rule over every child use in the THIR of eval + read census", "DESIGN.md 5/C20")
 chk("C01", "proof",
@@ -64,15 +64,15 @@ chk("C11", "proof",
     "trusted: min/max algebra of the value types, sort correctness; NaN/inf arguments are outside the property",
     "fold-schema matching over typed THIR terms", "DESIGN.md 5/C11")
 chk("C15", "proof",
-    "Sibling cross-check of extracted tables: (1) type-erased parser arms for every shared symbol/function and the parser skeleton are identical across evaluators; (2) number<->i64: the Integer branch uses the same checked operation with the same operand order, Integer-wrapped; (3) number<->f64: every branch with a Float operand has, after erasing the Number wrappers, the same term as eval_f64's arm; (4) complex/decimal<->f64: same-named routing.",
+    "Sibling cross-check of extracted tables: (1) type-erased parser arms for every shared symbol/function and the parser skeleton are identical across evaluators; (2) number<->i64: the Integer branch uses the same checked operation with the same operand order, Integer-wrapped; (3) number<->f64: every branch with a Float operand has, after erasing the Number wrappers, the same term as eval_f64's arm; (4) complex/decimal<->f64: same-named routing. (5) min/max are the minimum/maximum fold of the value type in eval_i64, eval_f64 and eval_number; token->category tables agree.",
     "declined: 1e-9 numerical agreement of eval_complex/eval_decimal with eval_f64",
     "sibling comparison of extracted tables + partial evaluation", "DESIGN.md 5/C15")
 chk("C17", "proof",
-    "Exhaustive over configurations: all 31 non-empty feature subsets and the empty one are type-checked under the extractor; the export set equals the selection; the typed THIR of every compiled evaluator module and of the shared utils is hash-equal to the all-features build; the precedence enum restricted to surviving variants keeps the order; cfg occurrences are confined to the crate root and the enum; Cargo feature table is as documented. Thorough: also without overflow checks and with the stable toolchain.",
+    "Exhaustive over configurations: all 31 non-empty feature subsets and the empty one are type-checked under the extractor; the export set equals the selection; the typed THIR of every compiled evaluator module and of the shared utils is hash-equal to the all-features build; the precedence enum restricted to surviving variants keeps the order; cfg occurrences are confined to the crate root and the enum; Cargo feature table is as documented. Thorough: also without overflow checks and with the stable toolchain. Isolation premise: no crate state and plain entry chains, so an evaluator cannot depend on a sibling present in some subsets only; no numeric cast of a cfg-dependent enum.",
     "trusted: compiler determinism (equal typed program => equal behaviour)",
     "exhaustive configuration enumeration with per-module fact-base equality + lexical cfg census", "DESIGN.md 5/C17")
 chk("C18", "proof",
-    "From<i64> is Integer(v). From<f64> is summarised to a decision tree: an integrality test from an enumerated exact set (false for NaN and +-inf), range guard with constants folded exactly to [-2^63, 2^63) (strict upper bound), Integer(t(v) as i64) inside, Float(v) carrying the parameter itself otherwise. Case analysis over the tree covers all 2^64 doubles.",
+    "From<i64> is Integer(v). From<f64> is summarised to a decision tree: an integrality test from an enumerated exact set (false for NaN and +-inf), range guard with constants folded exactly to [-2^63, 2^63) (strict upper bound), Integer(t(v) as i64) inside, Float(v) carrying the parameter itself otherwise. Case analysis over the tree covers all 2^64 doubles. Door census: every other f64->Integer cast in eval_number (helpers, evaluator arms, parser, tokenizer) obeys the same guard rule; else-branch (early-exit) guards need a NaN test.",
     "trusted: IEEE floor/trunc/compare semantics, exactness of `as i64` on integral doubles in range",
     "decision-tree summary of typed THIR + guard dominance with constant folding + identity-flow rule", "DESIGN.md 5/C18")
 chk("C19", "other",
